@@ -62,6 +62,12 @@ type Scenario struct {
 	Partition    int    `json:"partition"`    // isolate this node (1..N) during the fault window (0 = none)
 	Follower     bool   `json:"follower"`     // issue client writes through a follower's Dataset as well
 	DropSnap     int    `json:"dropsnap"`     // lose this many snapshot messages (MsgSnap), also outside the fault window
+	// force a leader to step down in the middle of the client phase: "vote" = an isolated follower with an
+	// up-to-date log campaigns and its vote request reaches the leader first once the partition heals;
+	// "app" = the isolated leader gets the new leader's delayed first append before any heartbeat
+	StepDown string `json:"stepdown"`
+	// "stepdown": the crash plan fires in the ready cycle in which the crash node stops being leader
+	CrashWhen string `json:"crashwhen"`
 }
 
 type event map[string]interface{}
@@ -90,17 +96,19 @@ func emit(e event) {
 }
 
 type node struct {
-	idx    int
-	id     uint64
-	db     *badger.DB
-	addr   string
-	srv    *grpc.Server
-	mu     sync.Mutex
-	tr     *raft.RaftTransport
-	conn   *cluster.Conn
-	ds     *storage.Dataset
-	up     bool
-	cycles int32 // ready cycles since the client phase began
+	idx       int
+	id        uint64
+	db        *badger.DB
+	addr      string
+	srv       *grpc.Server
+	mu        sync.Mutex
+	tr        *raft.RaftTransport
+	conn      *cluster.Conn
+	ds        *storage.Dataset
+	up        bool
+	cycles    int32 // ready cycles since the client phase began
+	wasLeader bool  // role after the last soft-state change (ready loop goroutine only)
+	sdCycle   int32 // the cycle in which the node stopped being leader
 }
 
 type shim struct {
@@ -120,6 +128,11 @@ type world struct {
 	crashed    chan *node
 	crashArmed int32
 	snapDrops  int32
+	part       int32 // node isolated right now by a step-down scenario
+	holdApp    int32 // appends to this node are delayed (not lost) while it is isolated
+	holdNext   int32
+	holdTurn   int32
+	hbBlock    int32 // heartbeats to this node are lost until a delayed append or a vote request got through
 }
 
 func (s *shim) Receive(ctx context.Context, req *pb.RaftMessage) (*pb.EmptyMessage, error) {
@@ -136,6 +149,29 @@ func (s *shim) Receive(ctx context.Context, req *pb.RaftMessage) (*pb.EmptyMessa
 	if m.Type == raftpb.MsgSnap && atomic.AddInt32(&w.snapDrops, 1) <= int32(w.sc.DropSnap) {
 		emit(event{"ev": "dropsnap", "node": n.idx})
 		return nil, fmt.Errorf("snapshot message lost")
+	}
+	if p := int(atomic.LoadInt32(&w.part)); p != 0 && (int(m.From) == p || int(m.To) == p) {
+		if int(m.To) == p && int(atomic.LoadInt32(&w.holdApp)) == p && m.Type == raftpb.MsgApp {
+			// delayed, not lost: delivered in arrival order once the partition heals
+			ticket := atomic.AddInt32(&w.holdNext, 1)
+			for i := 0; i < 10000 && (atomic.LoadInt32(&w.part) != 0 || atomic.LoadInt32(&w.holdTurn)+1 != ticket); i++ {
+				time.Sleep(time.Millisecond)
+			}
+			r, err := tr.Receive(context.Background(), req)
+			time.Sleep(2 * time.Millisecond)
+			atomic.StoreInt32(&w.holdTurn, ticket)
+			atomic.CompareAndSwapInt32(&w.hbBlock, int32(p), 0)
+			return r, err
+		}
+		return nil, fmt.Errorf("partitioned")
+	}
+	if b := int(atomic.LoadInt32(&w.hbBlock)); b != 0 && int(m.To) == b {
+		if m.Type == raftpb.MsgHeartbeat {
+			return nil, fmt.Errorf("heartbeat lost")
+		}
+		if m.Type == raftpb.MsgVote {
+			defer atomic.CompareAndSwapInt32(&w.hbBlock, int32(b), 0)
+		}
 	}
 	if atomic.LoadInt32(&w.faults) == 1 {
 		if w.sc.Partition != 0 && (int(m.From) == w.sc.Partition || int(m.To) == w.sc.Partition) {
@@ -241,6 +277,14 @@ func (w *world) installHooks() {
 			if atomic.LoadInt32(&w.counting) == 1 {
 				atomic.AddInt32(&n.cycles, 1)
 			}
+			if rd.SoftState != nil {
+				now := rd.SoftState.RaftState == etcdRaft.StateLeader
+				if n.wasLeader && !now {
+					atomic.StoreInt32(&n.sdCycle, atomic.LoadInt32(&n.cycles))
+					emit(event{"ev": "stepdown", "node": n.idx, "cycle": int(atomic.LoadInt32(&n.cycles)), "nmsgs": len(rd.Messages), "nents": len(rd.Entries)})
+				}
+				n.wasLeader = now
+			}
 			quiet := len(rd.Entries) == 0 && len(rd.CommittedEntries) == 0 && etcdRaft.IsEmptySnap(rd.Snapshot) && etcdRaft.IsEmptyHardState(rd.HardState)
 			if !quiet {
 				emit(event{"ev": "ready", "node": n.idx, "term": int(rd.HardState.Term), "vote": int(rd.HardState.Vote), "commit": int(rd.HardState.Commit),
@@ -281,8 +325,11 @@ func (w *world) installHooks() {
 			emit(event{"ev": "snapshot", "node": n.idx, "err": es})
 		}
 		// crash plan
-		if atomic.LoadInt32(&w.crashArmed) == 1 && n.idx == w.sc.CrashNode && point == w.sc.CrashPoint &&
-			int(atomic.LoadInt32(&n.cycles)) >= w.sc.CrashCycle {
+		due := int(atomic.LoadInt32(&n.cycles)) >= w.sc.CrashCycle
+		if w.sc.CrashWhen == "stepdown" {
+			due = atomic.LoadInt32(&n.sdCycle) > 0 && atomic.LoadInt32(&n.sdCycle) == atomic.LoadInt32(&n.cycles)
+		}
+		if atomic.LoadInt32(&w.crashArmed) == 1 && n.idx == w.sc.CrashNode && point == w.sc.CrashPoint && due {
 			if atomic.CompareAndSwapInt32(&w.crashArmed, 1, 0) {
 				n.mu.Lock()
 				n.up = false
@@ -463,12 +510,15 @@ func main() {
 		atomic.StoreInt32(&w.crashArmed, 1)
 	}
 	opn := 0
+	var forceVia *node
 	client := func(k int) {
 		for i := 0; i < k; i++ {
 			opn++
 			// pick the node to talk to
 			var via *node
-			if sc.Follower && opn%2 == 0 {
+			if forceVia != nil {
+				via = forceVia
+			} else if sc.Follower && opn%2 == 0 {
 				for _, n := range w.nodes {
 					if w.raftOf(n) != nil && n != w.leader() {
 						via = n
@@ -552,6 +602,71 @@ func main() {
 					}
 				}
 			}
+		}
+	}
+	if sc.StepDown != "" {
+		client(2)
+		l := w.waitLeader(3 * time.Second)
+		termOf := func(n *node) uint64 {
+			if g := w.raftOf(n); g != nil {
+				return g.VerifNode().Status().Term
+			}
+			return 0
+		}
+		if l != nil {
+			var other *node
+			for _, n := range w.nodes {
+				if n != l && w.raftOf(n) != nil {
+					other = n
+					break
+				}
+			}
+			t0 := termOf(l)
+			switch sc.StepDown {
+			case "vote":
+				// nothing is written while the follower is away: its log stays as good as the leader's
+				emit(event{"ev": "isolate", "node": other.idx})
+				atomic.StoreInt32(&w.part, int32(other.idx))
+				for dl := time.Now().Add(5 * time.Second); time.Now().Before(dl) && termOf(other) <= t0; {
+					time.Sleep(time.Millisecond)
+				}
+				atomic.StoreInt32(&w.hbBlock, int32(other.idx)) // it must not hear from the leader before its request is out
+				atomic.StoreInt32(&w.part, 0)
+				emit(event{"ev": "heal", "node": other.idx})
+				for dl := time.Now().Add(3 * time.Second); time.Now().Before(dl) && termOf(l) <= t0; {
+					time.Sleep(time.Millisecond)
+				}
+				atomic.StoreInt32(&w.hbBlock, 0)
+			case "app":
+				emit(event{"ev": "isolate", "node": l.idx})
+				atomic.StoreInt32(&w.holdApp, int32(l.idx))
+				atomic.StoreInt32(&w.part, int32(l.idx))
+				var l2 *node
+				for dl := time.Now().Add(5 * time.Second); time.Now().Before(dl) && l2 == nil; {
+					for _, n := range w.nodes {
+						if g := w.raftOf(n); n != l && g != nil {
+							if st := g.VerifNode().Status(); st.RaftState == etcdRaft.StateLeader && st.Term > t0 {
+								l2 = n
+							}
+						}
+					}
+					time.Sleep(time.Millisecond)
+				}
+				if l2 != nil {
+					forceVia = l2
+					client(1)
+					forceVia = nil
+				}
+				atomic.StoreInt32(&w.hbBlock, int32(l.idx))
+				atomic.StoreInt32(&w.part, 0)
+				emit(event{"ev": "heal", "node": l.idx})
+				for dl := time.Now().Add(3 * time.Second); time.Now().Before(dl) && termOf(l) <= t0; {
+					time.Sleep(time.Millisecond)
+				}
+				atomic.StoreInt32(&w.hbBlock, 0)
+				atomic.StoreInt32(&w.holdApp, 0)
+			}
+			time.Sleep(30 * time.Millisecond)
 		}
 	}
 	client(sc.Ops)
